@@ -37,6 +37,7 @@ import (
 
 var (
 	errFinalDataAlreadyWritten = fmt.Errorf("final RPC response data already written: %w", context.Canceled)
+	errTooManyRequestMessages  = errors.New("request has more than one message but the target protocol can carry only one")
 )
 
 // Transcoder is a Vanguard handler which acts like a router and a middleware. It transforms
@@ -739,6 +740,18 @@ func (o *operation) readRequestMessage(rw *responseWriter, reader io.Reader, msg
 	return nil
 }
 
+// singleRequestMessageOnly returns true if the request body sent to the server
+// handler has no message framing, so it can carry exactly one message.
+func (o *operation) singleRequestMessageOnly() bool {
+	if o.serverEnveloper != nil {
+		return false
+	}
+	if o.server.protocol.protocol() == ProtocolREST && o.restTarget != nil && restHTTPBodyRequest(o) {
+		return false // a stream of HttpBody chunks is concatenated on purpose
+	}
+	return true
+}
+
 func (o *operation) processRequestEnvelope(envBuf envelopeBytes) (msgLen int, compressed bool, err error) {
 	env, err := o.clientEnveloper.decodeEnvelope(envBuf)
 	if err != nil {
@@ -789,6 +802,7 @@ type envelopingReader struct {
 	mustReleaseCurrent bool
 	env                envelopeBytes
 	envRemain          int
+	messages           int
 }
 
 func (r *envelopingReader) Read(data []byte) (n int, err error) {
@@ -907,6 +921,12 @@ func (r *envelopingReader) prepareNext() error {
 			r.rw.reportError(err)
 			return err
 		}
+		r.messages++
+		if r.messages > 1 && r.rw.op.singleRequestMessageOnly() {
+			err = malformedRequestError(errTooManyRequestMessages)
+			r.rw.reportError(err)
+			return err
+		}
 		r.current = &exactLengthReader{r: r.r, remaining: int64(env.length)}
 	}
 
@@ -978,6 +998,12 @@ func (r *transformingReader) Read(data []byte) (n int, err error) {
 				r.err = err
 				return 0, err
 			}
+		}
+		if r.consumedFirst && r.rw.op.singleRequestMessageOnly() {
+			err := malformedRequestError(errTooManyRequestMessages)
+			r.err = err
+			r.rw.reportError(err)
+			return 0, err
 		}
 		if err := r.prepareMessage(); err != nil {
 			r.err = err
